@@ -188,6 +188,55 @@ func c32(p *an.Prog, r *an.R, tier string) {
 			}
 			return true
 		})
+		// the restore may live in a helper called from the loop: h(.., indexDir, .., trash, ..) whose body
+		// moves the shards found under its trash parameter to its index-directory parameter
+		ast.Inspect(rs.Body, func(m ast.Node) bool {
+			c, ok := m.(*ast.CallExpr)
+			if !ok || restores {
+				return true
+			}
+			h := an.Callee(info, c)
+			if h == nil || h.Pkg() != f.Pkg() {
+				return true
+			}
+			hd := p.Decl(h)
+			if hd == nil || hd.Decl.Body == nil {
+				return true
+			}
+			var dirP, trashP types.Object
+			for i, a := range c.Args {
+				if an.UsesObj(info, a, indexDir) {
+					dirP = an.Param(info, hd.Decl, i)
+				}
+				if an.UsesObj(info, a, trash) {
+					trashP = an.Param(info, hd.Decl, i)
+				}
+			}
+			if dirP == nil || trashP == nil {
+				return true
+			}
+			ast.Inspect(hd.Decl.Body, func(k ast.Node) bool {
+				is, ok := k.(*ast.IfStmt)
+				if !ok || is.Init == nil {
+					return true
+				}
+				as, ok := is.Init.(*ast.AssignStmt)
+				if !ok || len(as.Rhs) != 1 {
+					return true
+				}
+				ix, ok := ast.Unparen(as.Rhs[0]).(*ast.IndexExpr)
+				if !ok || !an.UsesObj(info, ix.X, trashP) {
+					return true
+				}
+				for _, mc := range an.CallsTo(info, is.Body, false, moveAll) {
+					if an.UsesObj(info, mc.Args[0], dirP) {
+						restores = true
+					}
+				}
+				return true
+			})
+			return true
+		})
 		r.Check(restores, "C32.R3", isrv+".cleanup/assigned-repository-restored-from-trash", rs.Pos(), "an assigned repository found in the trash is moved back into the index directory", "an assigned repository that sits in the trash is not restored")
 		return true
 	})
